@@ -186,6 +186,7 @@ func genVCase(k int, r *Rng) (string, VCase) {
 		}
 		return "VNormal", c
 	case 2:
+		d = 1 + (k/4)%3 // products: 1..3 components (the certificate of a product grows quickly with d)
 		f := famByName(iidFams[r.Intn(len(iidFams))])
 		c := VCase{N: d, Comp: []string{f.Name}}
 		p := f.Valid(r)
@@ -201,6 +202,7 @@ func genVCase(k int, r *Rng) (string, VCase) {
 		}
 		return "VIid", c
 	}
+	d = 1 + (k/4)%3
 	c := VCase{N: d}
 	for i := 0; i < d; i++ {
 		f := famByName(iidFams[r.Intn(len(iidFams))])
@@ -278,6 +280,18 @@ func vcaseCoq(fam string, c VCase, o Outcome) string {
 	} else {
 		obs = obsCoq(&Fam{}, o)
 	}
+	// evaluation points of discrete components are printed as IZR k / IZR k + 1/2
+	xl := make([]string, len(c.X))
+	for i, x := range c.X {
+		disc := false
+		if fam == "VIid" {
+			disc = famByName(c.Comp[0]).Discrete
+		} else if fam == "VId" && i < len(c.Comp) {
+			disc = famByName(c.Comp[i]).Discrete
+		}
+		xl[i] = RX(x, disc)
+	}
+	xs := "[" + strings.Join(xl, "; ") + "]"
 	var sb strings.Builder
 	sb.WriteString("(forall lgam lerfc gamP, ")
 	for _, h := range hyps {
@@ -285,7 +299,7 @@ func vcaseCoq(fam string, c VCase, o Outcome) string {
 	}
 	sb.WriteString(fmt.Sprintf("agrees (veval lgam lerfc gamP %s %s %s %s %s [%s] [%s] (%d)%%Z %s) %s)",
 		vf, RL(c.Nu), RList(c.Mu), RMat(c.SInv), RL(c.SDet), strings.Join(pss, "; "), strings.Join(zss, "; "),
-		c.N, RList(c.X), obs))
+		c.N, xs, obs))
 	return sb.String()
 }
 
@@ -408,6 +422,32 @@ func vecCheck(fam string, c VCase, report func(Failure), tried *int) {
 	ok := v == ref || (!math.IsInf(ref, 0) && math.Abs(v-ref) <= 1e-9*math.Max(1, math.Abs(ref)))
 	if !ok {
 		report(vecFailure(fam, "formula", c, fmt.Sprintf("%s %v", o.Kind, o.V), fmt.Sprintf("%v", ref)))
+	}
+	// GetParameters -> SetParameters and Clone reproduce the distribution
+	if fam == "VT" || fam == "VNormal" {
+		func() {
+			defer func() {
+				if e := recover(); e != nil {
+					report(vecFailure(fam, "roundtrip", c, fmt.Sprintf("SetParameters(GetParameters()) panics: %v", e), "no panic"))
+				}
+			}()
+			cc := c
+			d, err := vecNew(fam, ad.Real64Type, &cc)
+			if err != nil {
+				return
+			}
+			cl := d.CloneVectorPdf()
+			if oc := vecCall(cl, ad.NewReal64(0), c.X); !sameOutcome(oc, o) {
+				report(vecFailure(fam, "roundtrip", c, fmt.Sprintf("Clone: %v", oc), fmt.Sprintf("%v", o)))
+			}
+			if err := cl.SetParameters(d.GetParameters().CloneVector()); err != nil {
+				report(vecFailure(fam, "roundtrip", c, "SetParameters(GetParameters()) error: "+err.Error(), "nil"))
+				return
+			}
+			if oc := vecCall(cl, ad.NewReal64(0), c.X); !(math.Abs(num(oc)-v) <= 1e-9*math.Max(1, math.Abs(v))) {
+				report(vecFailure(fam, "roundtrip", c, fmt.Sprintf("after SetParameters(GetParameters()): %v", oc), fmt.Sprintf("%v", o)))
+			}
+		}()
 	}
 	// d = 1: the vector normal is the scalar normal
 	if fam == "VNormal" && len(c.Mu) == 1 && len(c.X) == 1 && c.Sigma[0][0] > 0 {
